@@ -7,6 +7,7 @@ import (
 	"context"
 	"encoding/binary"
 	"fmt"
+	"hash/crc32"
 	"io"
 	"os"
 	"path/filepath"
@@ -237,6 +238,8 @@ func (d *DB) open() error {
 	return nil
 }
 
+var castagnoli = crc32.MakeTable(crc32.Castagnoli)
+
 // walEntries parses the WAL directory of a stream the way a reader would and
 // returns the offset of every complete entry, in order.
 func WALEntries(dir string) []wal.Offset { return walEntries(dir) }
@@ -273,7 +276,14 @@ func walEntries(dir string) []wal.Offset {
 			if int64(len(b))-pos-8 < length {
 				break
 			}
+			sum := crc32.Checksum(b[pos+8:pos+8+length], castagnoli)
+			want := binary.BigEndian.Uint32(b[pos+4:])
 			pos += 8 + length
+			if sum != want {
+				// the reader skips an entry whose checksum does not match (a torn tail
+				// completed by the sentinel that Open appends)
+				continue
+			}
 			out = append(out, wal.NewOffset(seq, pos))
 		}
 	}
